@@ -784,3 +784,93 @@ func first(a, _ []byte) []byte { return a }
 //@     invariant n.pointer == (*ref).pointer && n.tag == (*ref).tag
 //@     invariant n.pointer != nil && liveRef(n)
 //@     invariant slotOf(ref, t) && ref.obj != n.pointer
+
+// ---------------------------------------------------------------------------
+// collation.go: the hand-written sixth copy. Two keys per leaf: descent on the collation
+// key (colKey), equality on the original bytes (key). The codec is x/text/collate: its
+// Transform is modelled as returning two fresh byte slices (original bytes, sort key) and
+// writing only the codec's own scratch (src, the collate.Buffer) - nothing of the tree.
+
+//@ func (*CollationOrderKey[K]).Transform
+//@   requires cok != nil
+//@   ensures[fresh] fresh(result0) && fresh(result1) && result0.obj != result1.obj && result0.off == 0 && result1.off == 0 && cap(result0) == len(result0) && cap(result1) == len(result1)
+//@   ensures[frame] frame()
+//@   ensures[allocs_bytes_only] forallref(o, implies(allocated(o) && !old(allocated(o)), atype(o) == 1000))
+//@   assigns B collationSortedTree.cok.src
+
+//@ func (*collateLeafNode[V]).getKey
+//@   inline
+//@ func (*collateLeafNode[V]).getTransformKey
+//@   inline
+
+//@ spec LeafOK_collation(o) = as(collateLeafNode, o).key.obj != nil && allocated(as(collateLeafNode, o).key.obj) && 0 <= as(collateLeafNode, o).key.idx && as(collateLeafNode, o).key.idx + as(collateLeafNode, o).keyLen <= blen(as(collateLeafNode, o).key.obj) && as(collateLeafNode, o).colKey.obj != nil && allocated(as(collateLeafNode, o).colKey.obj) && 0 <= as(collateLeafNode, o).colKey.idx && as(collateLeafNode, o).colKey.idx + as(collateLeafNode, o).colKeyLen <= blen(as(collateLeafNode, o).colKey.obj)
+//@ spec HeapOK_collation() = forallref(o, implies(inT(o) && allocated(o) && o != nil && !pooled(o), NodeOK(o) && implies(atype(o) == leafT(), LeafOK_collation(o))))
+//@ spec WF1_collation(t) = t != nil && allocated(t) && atype(t) == typeid(collationSortedTree) && leafT() == typeid(collateLeafNode) && rootOK(t.root) && HeapOK_collation()
+//@ spec WF1in_collation(t) = WF1_collation(t) && LinkedLive() && rootLive(t.root)
+
+//@ func (*collationSortedTree[K,V]).Search
+//@   opt kind collation
+//@   opt casts on
+//@   opt extent on
+//@   requires WF1in_collation(t)
+//@   ensures[pure] frameExcept("collationSortedTree.cok.src")
+//@   loop 1 (depth)
+//@     invariant 0 <= depth && depth <= len(colKey)
+//@     invariant liveRef(n)
+//@     decreases len(colKey) - depth
+
+//@ func (*collationSortedTree[K,V]).Size
+//@   requires t != nil
+//@   ensures[result] result == t.size
+//@   ensures[pure] frame()
+
+//@ func (*collationSortedTree[K,V]).Delete
+//@   opt kind collation
+//@   opt casts on
+//@   opt extent on
+//@   requires WF1in_collation(t) && sizeSane(t)
+//@   assume_at_call (*nodeRef).deleteChild : implies(isMerge(*ptr) && survT(*ptr, b) != 4, survP(*ptr, b) != ptr.obj && as(node, survP(*ptr, b)).prefixLen + as(node4, (*ptr).pointer).prefixLen + 1 < 4294967296)
+//@   ensures[wf] WF1_collation(t)
+//@   ensures[size] t.size == old(t.size) - ite(result, 1, 0)
+//@   ensures[noop_frame] implies(!result, frameExcept("collationSortedTree.cok.src"))
+//@   loop 1 (depth)
+//@     invariant 0 <= depth && depth <= len(colKey)
+//@     invariant n.pointer == (*ref).pointer && n.tag == (*ref).tag
+//@     invariant liveRef(n)
+//@     invariant slotOf(ref, t) && ref.obj != n.pointer
+//@     invariant n.tag != 4 || ref.obj == t
+//@     decreases len(colKey) - depth
+
+//@ func prefixMismatch@collation
+//@   opt leaf collateLeafNode
+//@   opt kind collation
+//@   opt casts on
+//@   opt extent on
+//@   requires okRef(n) && liveChild(n) && n.tag != 4 && 0 <= depth && depth <= len(key)
+//@   requires leafT() == typeid(collateLeafNode) && HeapOK_collation() && LinkedLive()
+//@   ensures[bound] 0 <= result && depth + result <= len(key)
+//@   ensures[short_path] implies(as(node, n.pointer).prefixLen <= 10, result <= as(node, n.pointer).prefixLen)
+//@   assigns nothing
+//@   loop 1 (idx)
+//@     invariant 0 <= idx && idx <= maxCmp
+//@     decreases maxCmp - idx
+//@   loop 2 (idx)
+//@     invariant 0 <= idx && depth + idx <= len(key)
+//@     decreases maxCmp - idx
+
+//@ func (*collationSortedTree[K,V]).Insert
+//@   opt kind collation
+//@   opt casts on
+//@   opt extent on
+//@   opt leaf collateLeafNode
+//@   requires WF1in_collation(t) && sizeSane(t)
+//@   assume_at_call minimum : LinkedLive()
+//@   pathkey calls("Insert$1")
+//@   ensures[size_accounting] t.size == old(t.size) + calls("Insert$1")
+//@   ensures[overwrite_only_value] implies(calls("Insert$1") == 0 && calls("Get") == 0, frameExcept("collateLeafNode.value", "collationSortedTree.cok.src"))
+//@   ensures[wf] WF1_collation(t)
+//@   loop 1 (depth)
+//@     invariant 0 <= depth && depth <= len(colKey)
+//@     invariant n.pointer == (*ref).pointer && n.tag == (*ref).tag
+//@     invariant n.pointer != nil && liveRef(n)
+//@     invariant slotOf(ref, t) && ref.obj != n.pointer
